@@ -16,15 +16,62 @@ use std::collections::HashMap;
 
 pub const K1: &str = "letter-weight-ascii";
 
+struct Range {
+    lo: Op,
+    hi: Op,
+    /// Indices of the two bound texts in `Compiled::texts`.
+    lo_i: usize,
+    hi_i: usize,
+    text: String,
+    pat: Pattern,
+}
+
+/// A bound text parsed once under both letter-weight models.
+struct Parsed {
+    rank: od::RefVersion,
+    ascii: od::RefVersion,
+}
+
+fn parsed(v: &str) -> Parsed {
+    Parsed { rank: od::parse(v, Weight::Rank), ascii: od::parse(v, Weight::Ascii) }
+}
+
 struct Compiled {
     b: String,
     pats: Vec<Pattern>,
     dews: Vec<Dewey>,
-    /// Ranges whose two ends are B and an equal-valued respelling of B.
-    ranges: Vec<(Op, Op, String, Pattern)>,
+    /// Ranges whose two ends are B and a near neighbour of B (an equal-valued
+    /// respelling, B with a modifier / revision / component appended, B without
+    /// its last token), in both orders and with all four operator pairs.
+    ranges: Vec<Range>,
+    /// B followed by its range partners, parsed.
+    texts: Vec<Parsed>,
 }
 
-fn compile(b: &str) -> Result<Compiled, Fail> {
+/// The near neighbours of B used as the other end of a range.
+fn range_partners(b: &str) -> Vec<String> {
+    let mut out = vec![format!("{b}.0"), format!("{b}rc1"), format!("{b}nb1"), format!("{b}.1")];
+    // B without its last character class run ("2.0rc1" -> "2.0rc" -> ...)
+    let cut = b.char_indices().rev().find(|(_, c)| !c.is_ascii_digit()).map(|(i, _)| i);
+    if let Some(i) = cut {
+        if i > 0 {
+            out.push(b[..i].to_string());
+        }
+    }
+    out.retain(|d| gv::usable(d) && d != b);
+    out
+}
+
+/// What the rule says about version `v` against one range (rank model, ASCII model).
+fn range_expected(v: &Parsed, texts: &[Parsed], rg: &Range) -> (bool, bool) {
+    let (l, h) = (&texts[rg.lo_i], &texts[rg.hi_i]);
+    (
+        rg.lo.test(od::compare(&v.rank, &l.rank).ord) && rg.hi.test(od::compare(&v.rank, &h.rank).ord),
+        rg.lo.test(od::compare(&v.ascii, &l.ascii).ord) && rg.hi.test(od::compare(&v.ascii, &h.ascii).ord),
+    )
+}
+
+fn compile(ev: &mut Ev, b: &str) -> Result<Compiled, Fail> {
     let mut pats = vec![];
     let mut dews = vec![];
     for op in OPS {
@@ -39,13 +86,39 @@ fn compile(b: &str) -> Result<Compiled, Fail> {
         );
     }
     let mut ranges = vec![];
-    let b2 = format!("{b}.0");
-    for (lo, hi) in [(Op::Ge, Op::Le), (Op::Gt, Op::Le), (Op::Ge, Op::Lt)] {
-        let text = format!("p{}{b}{}{b2}", lo.text(), hi.text());
-        let p = Pattern::new(&text).map_err(|e| Fail::from(format!("Pattern::new({text:?}) failed: {e}")))?;
-        ranges.push((lo, hi, text, p));
+    let partners = range_partners(b);
+    let all: Vec<&str> = std::iter::once(b).chain(partners.iter().map(|s| s.as_str())).collect();
+    let texts: Vec<Parsed> = all.iter().map(|t| parsed(t)).collect();
+    for di in 1..all.len() {
+        for (lo_i, hi_i) in [(0, di), (di, 0)] {
+            for (lo, hi) in [(Op::Ge, Op::Le), (Op::Gt, Op::Le), (Op::Ge, Op::Lt), (Op::Gt, Op::Lt)] {
+                let text = format!("p{}{}{}{}", lo.text(), all[lo_i], hi.text(), all[hi_i]);
+                let pat = Pattern::new(&text).map_err(|e| Fail::from(format!("Pattern::new({text:?}) failed: {e}")))?;
+                ranges.push(Range { lo, hi, lo_i, hi_i, text, pat });
+            }
+        }
     }
-    Ok(Compiled { b: b.to_string(), pats, dews, ranges })
+    // Every range is observed at its own ends once, when B is compiled.
+    // (A deterministic quarter of the (range, end) combinations per B keeps
+    // the cost of a pair bounded; over the run every shape of range is seen
+    // at its ends tens of thousands of times.)
+    let hb = crate::rng::hash_bytes(b.as_bytes()) as usize;
+    for (vi, v) in all.iter().enumerate() {
+        let name = format!("p-{v}");
+        for (ri, rg) in ranges.iter().enumerate() {
+            if (vi != rg.lo_i && vi != rg.hi_i) || (hb + ri + vi) % 4 != 0 {
+                continue;
+            }
+            let (want, want_ascii) = range_expected(&texts[vi], &texts, rg);
+            let got = rg.pat.matches(&name);
+            ev.eval();
+            ev.count(if want { "range/at-its-ends/true" } else { "range/at-its-ends/false" });
+            if got != want && !(want_ascii != want && got == want_ascii) {
+                return Err(format!("{} on {name}: observed {got}, dewey rule says {want}", rg.text).into());
+            }
+        }
+    }
+    Ok(Compiled { b: b.to_string(), pats, dews, ranges, texts })
 }
 
 /// Observe all four operators (through Pattern and Dewey) and best_match for
@@ -59,7 +132,7 @@ fn check_pair(
 ) -> CaseResult {
     if cache.as_ref().map(|c| c.b != b).unwrap_or(true) {
         *cache = None;
-        *cache = Some(compile(b)?);
+        *cache = Some(compile(ev, b)?);
     }
     let c = cache.as_ref().unwrap();
     let name = format!("p-{a}");
@@ -98,17 +171,20 @@ fn check_pair(
             first_cmp = Some(want.cmp);
         }
     }
-    // ranges between B and its respelling B.0
-    let b2 = format!("{b}.0");
-    for (lo, hi, text, p) in &c.ranges {
-        let (w1, w2) = (od::satisfies(a, *lo, b), od::satisfies(a, *hi, &b2));
-        let got = p.matches(&name);
+    // ranges between B and its near neighbours
+    let pa = parsed(a);
+    let ha = crate::rng::hash_bytes(a.as_bytes()) as usize;
+    for (ri, rg) in c.ranges.iter().enumerate() {
+        if (ha + ri) % 5 != 0 {
+            continue;
+        }
+        let (want, want_ascii) = range_expected(&pa, &c.texts, rg);
+        let got = rg.pat.matches(&name);
         ev.eval();
-        ev.count("range/equal-ended");
-        let want = w1.rank && w2.rank;
+        ev.count("range/near-ended");
         if got != want {
-            let msg = format!("{text} on {name}: observed {got}, dewey rule says {want}");
-            if got == (w1.ascii && w2.ascii) {
+            let msg = format!("{} on {name}: observed {got}, dewey rule says {want}", rg.text);
+            if want_ascii != want && got == want_ascii {
                 if soft.is_none() {
                     soft = Some(known(K1, msg));
                 }
